@@ -95,3 +95,37 @@ func checkIdentifierHeads(c *Ctx, rule string, ev *tmpl.Evaluator) {
 			fmt.Sprintf("the generated code starts an identifier with `%s` (%d occurrences, %d reviewed): camelize keeps a leading digit and Go keywords, so a name such as `2fa-token` or `type` gives code the formatter rejects — use pascalize or varname", k[strings.LastIndex(k, "{{"):], seen[k], e.n))
 	}
 }
+
+var rxReceiverArg = regexp.MustCompile(`func \(⟦\$?\.ReceiverName\s*⟧ [^)]*\) [^(\n]*\(([^)\n]*)\)`)
+
+// checkReceiverArgs: a method of the generated code whose receiver has a name the generator
+// chose (`o`, `m`) declares no parameter named directly after a name of the spec: `varname .Name`
+// for a parameter called `o` is `o`, and the method does not compile ("o redeclared").
+func checkReceiverArgs(c *Ctx, rule string, ev *tmpl.Evaluator) {
+	c.Rule(rule, "no method emitted with a generator-named receiver takes an argument named by a bare `varname <spec name>`", 2)
+	n := 0
+	for _, name := range ev.F.Names() {
+		t := ev.F.Trees[name]
+		if t == nil || t.Tree == nil || t.Tree.Root == nil || strings.HasPrefix(t.Asset, "contrib/") {
+			continue
+		}
+		l := tmpl.Linearise(t)
+		for _, m := range rxReceiverArg.FindAllStringSubmatchIndex(l.Text, -1) {
+			args := l.Text[m[2]:m[3]]
+			if !strings.Contains(args, "⟦") {
+				continue
+			}
+			n++
+			bad := regexp.MustCompile(`(^|,\s*)⟦(varname|camelize) [^⟧]*⟧ `).FindString(args)
+			sig := strings.TrimSpace(l.Text[m[0]:m[2]])
+			if len(sig) > 90 {
+				sig = sig[:90] + "…"
+			}
+			c.Check(bad == "", rule, fmt.Sprintf("%s › %s › %s", t.Asset, name, sig), l.Tree.PosStr(l.PosAt(m[0])), "argument names are the generator's own, or made distinct from the receiver",
+				fmt.Sprintf("the method takes an argument named `%s`, a name of the spec, next to the receiver ⟦.ReceiverName⟧: a parameter whose Go name equals the receiver's (`o`) makes the generated method redeclare it and the package does not build", strings.TrimSpace(strings.TrimLeft(bad, ", "))))
+		}
+	}
+	if n == 0 {
+		c.Anchor(rule, "templates › methods with a generator-named receiver and template-named arguments", "none found")
+	}
+}
